@@ -128,6 +128,8 @@ struct St {
     seen: Vec<u64>,
     /// the shell's single one-shot timer: set by every ArmTimer, spent by `fire`
     shell_timer: Option<Instant>,
+    /// the flow named by the most recent SelectBackend, until `resnew` resolves it
+    last_sel: Option<usize>,
     // oracle
     live: HashMap<usize, Inc>,
     cur: ClusterConfig,
@@ -391,8 +393,24 @@ fn check_state(st: &St, out: &mut Out, opname: &str) {
 fn run(c: &Case, out: &mut Out) {
     let mut st: Option<St> = None;
     for op in &c.ops {
-        let a = &op.args;
-        let name = op.name.as_str();
+        let mut args_owned;
+        let mut a = &op.args;
+        let mut name = op.name.as_str();
+        if name == "resnew" {
+            // the shell's synchronous resolution: same as `res <id of the last SelectBackend> ...`
+            match st.as_mut().and_then(|s| s.last_sel.take()) {
+                Some(id) => {
+                    args_owned = vec![tn(id)];
+                    args_owned.extend(op.args.iter().cloned());
+                    a = &args_owned;
+                    name = "res";
+                }
+                None => {
+                    out.obs(&[]);
+                    continue;
+                }
+            }
+        }
         if name == "new" {
             let cfg = cfg_of(&a[0..8]);
             let (mf, mrx, seed) = (a[8].n() as usize, a[9].n() as usize, a[10].n() as u64);
@@ -403,6 +421,7 @@ fn run(c: &Case, out: &mut Out) {
                 seed,
                 seen: st.as_ref().map_or(vec![], |s| s.seen.clone()),
                 shell_timer: None,
+                last_sel: None,
                 live: HashMap::new(),
                 cur: cfg,
                 max_flows: mf,
@@ -691,6 +710,9 @@ fn finish(s: &mut St, kind: Kind, exp: Expect, outs: Vec<Output>, out: &mut Out,
     for o in &outs {
         if let Output::ArmTimer(d) = o {
             s.shell_timer = Some(*d);
+        }
+        if let Output::SelectBackend { flow, .. } = o {
+            s.last_sel = Some(*flow);
         }
     }
     oracle(s, kind, exp, &outs, out, name);
